@@ -44,10 +44,36 @@ namespace ip {
 	}
 
 	template<typename Protocol>
-	basic_resolver<Protocol>::basic_resolver(basic_resolver<Protocol>&&) noexcept = default;
+	basic_resolver<Protocol>::basic_resolver(basic_resolver<Protocol>&& r) noexcept
+		: m_ios(r.m_ios)
+		, m_timer(*r.m_ios)
+		, m_queue(std::move(r.m_queue))
+	{
+		// the wait on r's timer calls back into r. Pending lookups are now
+		// ours, so is the wait for the first of them
+		r.m_queue.clear();
+		r.m_timer.cancel();
+		if (m_queue.empty()) return;
+		m_timer.expires_at(m_queue.front().completion_time);
+		m_timer.async_wait(aux::make_malloc(std::bind(&basic_resolver::on_lookup, this, _1)));
+	}
 
 	template<typename Protocol>
-	basic_resolver<Protocol>& basic_resolver<Protocol>::operator=(basic_resolver<Protocol>&&) noexcept = default;
+	basic_resolver<Protocol>& basic_resolver<Protocol>::operator=(basic_resolver<Protocol>&& r) noexcept
+	{
+		if (&r == this) return *this;
+		// lookups of our own complete with operation_aborted
+		cancel();
+		m_timer.cancel();
+		m_ios = r.m_ios;
+		m_queue = std::move(r.m_queue);
+		r.m_queue.clear();
+		r.m_timer.cancel();
+		if (m_queue.empty()) return *this;
+		m_timer.expires_at(m_queue.front().completion_time);
+		m_timer.async_wait(aux::make_malloc(std::bind(&basic_resolver::on_lookup, this, _1)));
+		return *this;
+	}
 
 	template<typename Protocol>
 	void basic_resolver<Protocol>::async_resolve(std::string hostname, char const* service
